@@ -20,7 +20,7 @@ LEVEL = "exploration"
 TECHNIQUE = ("runtime monitoring: wire recorder on the SOCKS transport + independent RFC 1928 request parser as oracle; "
              "complete enumeration of name lengths 1..300 (quick) and of all 65536 ports (thorough), boundary and random "
              "IPv4/IPv6 literals in six text forms")
-LEVEL_TEXT = ("Held on the executions observed: every written byte of tens of thousands (quick) to ~700k (thorough) "
+LEVEL_TEXT = ("Held on the executions observed: every written byte of ~49k (quick) to ~950k (thorough) "
               "handshakes decoded by an independent parser and compared with the requested target/port/command. "
               "Name lengths 1..300 and (thorough) all 65536 ports are enumerated completely; address literals and name "
               "contents are boundary values plus seeded samples - not a proof for unexplored literals/names.")
